@@ -77,7 +77,7 @@ func literals(c *lib.Ctx) error {
 		n := c.Pick(f.quick, f.thorough)
 		cfg := fmt.Sprintf("CONSTANT Family = %d\nCONSTANT MaxTok = %d\nINIT Init\nNEXT Next\nINVARIANT Sane\nINVARIANT Emit\n", f.id, n)
 		r, err := c.TLC(fmt.Sprintf("MCLiteral/family%d", f.id), lib.TLCRun{Dir: c.SpecDir("StringLit"), Module: "MCLiteral",
-			Workers: 2, Timeout: 12 * time.Minute, Files: map[string][]byte{"MCLiteral.cfg": []byte(cfg)}})
+			Workers: 2, Timeout: 45 * time.Minute, Files: map[string][]byte{"MCLiteral.cfg": []byte(cfg)}})
 		if err != nil {
 			res[i].err = err
 			return
